@@ -18,6 +18,16 @@ class NoEval(Exception):
     pass
 
 
+class Opq:
+    """A value the evaluation knows nothing about (an external object); methods on it yield further unknowns."""
+
+    def __init__(self, label):
+        self.label = label
+
+    def __repr__(self):
+        return "<%s>" % self.label
+
+
 class _Return(Exception):
     def __init__(self, v):
         self.v = v
@@ -29,6 +39,10 @@ class Probe:
         self.selfty = selfty
         self.module = tuple(module)
         self.depth = 0
+        self.intercept = {}  # fn key -> callable(args) -> value
+        self.mhooks = {}  # method name -> callable(probe, expr, recv_value, arg_values) -> value | NotImplemented
+        self.lenient = False
+        self.cur = []  # stack of functions being evaluated
 
     # ------------------------------------------------------------------ helpers
     def const(self, name):
@@ -105,6 +119,18 @@ class Probe:
                     out.update(b)
                 return out
             raise NoEval("tuple-struct pattern on %r" % (v,))
+        if k == "struct":
+            if not isinstance(v, dict):
+                raise NoEval("struct pattern on %r" % (v,))
+            out = {}
+            for fl in p["fields"]:
+                if fl["name"] not in v:
+                    raise NoEval("field %s" % fl["name"])
+                b = self.pmatch(fl["pat"], v[fl["name"]], env)
+                if b is None:
+                    return None
+                out.update(b)
+            return out
         if k == "tuple":
             if not isinstance(v, list) or len(v) != len(p["elems"]):
                 raise NoEval("tuple pattern")
@@ -166,7 +192,10 @@ class Probe:
             ce = self.const(segs[-1])
             if ce is not None:
                 return self.ev(ce, {})
-            return ("enum", "::".join(segs[-2:]), [])
+            ty = self.selfty if segs[-2] == "Self" else segs[-2]
+            if segs[-1][:1].islower():
+                return ("fnref_path", e, tuple(self.cur[-1].module) if self.cur else self.module)
+            return ("enum", "%s::%s" % (ty, segs[-1]), [])
         if k == "field":
             b = self.ev(e["e"], env)
             if isinstance(b, dict) and e["name"] in b:
@@ -221,7 +250,7 @@ class Probe:
             if e["name"].split("::")[-1] in ("debug", "trace", "info", "warn", "error"):
                 return ()
             raise NoEval("macro %s" % e["name"])
-        if k == "tuple":
+        if k in ("tuple", "array"):
             return [self.ev(x, env) for x in e["elems"]]
         if k == "return":
             raise _Return(self.ev(e["e"], env) if e["e"] is not None else ())
@@ -280,11 +309,24 @@ class Probe:
                     raise NoEval("closure parameter")
                 env2.update(b)
             return self.ev(node["body"], env2)
-        if isinstance(fv, tuple) and fv and fv[0] == "fnref":
-            return self.invoke(fv[1], None, args)
+        if isinstance(fv, tuple) and fv and fv[0] == "fnref_path":
+            fn = self.find_fn(fv[1]["segs"])
+            if fn is not None:
+                return self.invoke(fn, None, args)
+            if fv[1]["segs"][-2:] == ["String", "from"] and len(args) == 1:
+                return args[0]
         raise NoEval("not callable")
 
     def invoke(self, fn, self_val, args):
+        if fn.key in self.intercept:
+            return self.intercept[fn.key](args)
+        self.cur.append(fn)
+        try:
+            return self._invoke(fn, self_val, args)
+        finally:
+            self.cur.pop()
+
+    def _invoke(self, fn, self_val, args):
         env = {}
         if self_val is not None:
             env["self"] = self_val
@@ -309,7 +351,16 @@ class Probe:
         if f["k"] != "path":
             raise NoEval("call")
         segs = f["segs"]
-        args = [self.ev(a, env) for a in e["args"]]
+        if self.lenient and len(segs) >= 2 and segs[-1][:1].isupper() and self.find_fn(segs) is None:
+            # arguments of an enum constructor that cannot be evaluated stay unknown (the caller compares the others)
+            args = []
+            for a in e["args"]:
+                try:
+                    args.append(self.ev(a, env))
+                except NoEval as ex:
+                    args.append(Opq("unevaluated: %s" % ex))
+        else:
+            args = [self.ev(a, env) for a in e["args"]]
         if segs == ["Some"] and len(args) == 1:
             return ("some", args[0])
         if segs[-2:] in (["String", "new"], ["String", "default"]) and not args:
@@ -331,12 +382,50 @@ class Probe:
         if fn is not None:
             return self.invoke(fn, None, args)
         if len(segs) >= 2 and segs[-1][:1].isupper():
-            return ("enum", "::".join(segs[-2:]), args)
+            ty = self.selfty if segs[-2] == "Self" else segs[-2]
+            return ("enum", "%s::%s" % (ty, segs[-1]), args)
         raise NoEval("call %s" % "::".join(segs))
 
     def mcall(self, e, env):
         m = e["m"]
         recv = self.ev(e["recv"], env)
+        if m in self.mhooks:
+            r = self.mhooks[m](self, e, recv, [self.ev(a, env) for a in e["args"]])
+            if r is not NotImplemented:
+                return r
+        if isinstance(recv, Opq):
+            for a in e["args"]:
+                self.ev(a, env)
+            return Opq("%s.%s()" % (recv.label, m))
+        if isinstance(recv, tuple) and recv and recv[0] in ("ok", "err"):
+            if m == "unwrap_or" and len(e["args"]) == 1:
+                d = self.ev(e["args"][0], env)
+                return recv[1] if recv[0] == "ok" else d
+            if m == "unwrap_or_default" and not e["args"]:
+                return recv[1] if recv[0] == "ok" else ""
+            if m == "unwrap_or_else" and len(e["args"]) == 1:
+                return recv[1] if recv[0] == "ok" else self.apply(self.ev(e["args"][0], env), [recv[1]])
+            if m == "ok" and not e["args"]:
+                return ("some", recv[1]) if recv[0] == "ok" else None
+            raise NoEval("method %s on a Result" % m)
+        if (recv is None or (isinstance(recv, tuple) and recv and recv[0] == "some")) and m in ("map", "and_then", "unwrap_or", "unwrap_or_else", "or", "or_else", "take", "filter"):
+            if m == "map":
+                return None if recv is None else ("some", self.apply(self.ev(e["args"][0], env), [recv[1]]))
+            if m == "and_then":
+                return None if recv is None else self.apply(self.ev(e["args"][0], env), [recv[1]])
+            if m == "unwrap_or":
+                d = self.ev(e["args"][0], env)
+                return d if recv is None else recv[1]
+            if m == "unwrap_or_else":
+                return self.apply(self.ev(e["args"][0], env), []) if recv is None else recv[1]
+            if m == "or":
+                d = self.ev(e["args"][0], env)
+                return d if recv is None else recv
+            if m == "or_else":
+                return self.apply(self.ev(e["args"][0], env), []) if recv is None else recv
+            if m == "filter":
+                return recv if recv is not None and self.apply(self.ev(e["args"][0], env), [recv[1]]) else None
+            raise NoEval("method %s" % m)
         if isinstance(recv, dict) and recv.get("__ty"):
             fn = self.f.fns.get("%s::%s" % (recv["__ty"], m))
             if fn is not None and fn.node.get("self") is not None:
@@ -359,6 +448,27 @@ class Probe:
             return self.apply(self.ev(e["args"][1], env), [recv[1]])
         if m == "unwrap_or_default":
             return "" if recv is None else recv[1]
+        if isinstance(recv, list) and m in ("find", "any", "all", "position", "contains", "len", "first", "last", "rev") :
+            if m == "len":
+                return len(recv)
+            if m == "rev":
+                return list(reversed(recv))
+            if m in ("first", "last"):
+                return None if not recv else ("some", recv[0 if m == "first" else -1])
+            if m == "contains":
+                return self.ev(e["args"][0], env) in recv
+            fv = self.ev(e["args"][0], env)
+            for i_, it in enumerate(recv):
+                if self.apply(fv, [it]):
+                    if m == "find":
+                        return ("some", it)
+                    if m == "position":
+                        return ("some", i_)
+                    if m == "any":
+                        return True
+                elif m == "all":
+                    return False
+            return {"find": None, "position": None, "any": False, "all": True}[m]
         if m == "fold" and len(e["args"]) == 2 and isinstance(recv, list):
             acc = self.ev(e["args"][0], env)
             fv = self.ev(e["args"][1], env)
